@@ -499,7 +499,45 @@ class Library:
         def np_allclose(a, b, rtol=Fraction(1, 100000), atol=Fraction(1, 10**8)):
             raise OutOfReach("np.allclose is decided only on concrete data (bounded stand-in)")
 
-        return {"array": np_array, "roll": np_roll, "zeros_like": np_zeros_like, "empty_like": np_zeros_like, "empty": np_empty,
+        def np_block(rows):
+            """np.block of a nested list [[B00, B01, ...], [B10, ...]] of 2-D index-level arrays."""
+            if not (isinstance(rows, list) and rows and all(isinstance(r, list) and r for r in rows)):
+                raise OutOfReach("np.block form")
+            blocks = [[b for b in r] for r in rows]
+            if not all(isinstance(b, ix.IArr) and b.ndim == 2 for r in blocks for b in r):
+                raise OutOfReach("np.block of non-2-D pieces")
+            ncols = len(blocks[0])
+            for r in blocks:
+                if len(r) != ncols:
+                    raise Raised("ValueError", "np.block: ragged rows")
+            heights = [r[0].vshape[0] for r in blocks]
+            widths = [b.vshape[1] for b in blocks[0]]
+            for r, h in zip(blocks, heights):
+                for b, w in zip(r, widths):
+                    ncm.dims_equal(b.vshape[0], h, "conformable.block.rows")
+                    ncm.dims_equal(b.vshape[1], w, "conformable.block.cols")
+            snaps = [[b._snapshot() for b in r] for r in blocks]
+            roff, coff = [0], [0]
+            for h in heights:
+                roff.append(roff[-1] + h)
+            for w in widths:
+                coff.append(coff[-1] + w)
+            cp = any(b.cplx for r in blocks for b in r)
+
+            def fn(vi):
+                p_, q_ = vi
+                res = None
+                for a in range(len(blocks) - 1, -1, -1):
+                    for b in range(ncols - 1, -1, -1):
+                        v = snaps[a][b]((p_ - roff[a], q_ - coff[b]))
+                        if res is None:
+                            res = v
+                        else:
+                            res = ix.ite(sand(p_ < roff[a + 1], q_ < coff[b + 1], q_ >= coff[b]) if b else sand(p_ < roff[a + 1], q_ < coff[1]), v, res)
+                return res
+            return ix.IArr.from_fn([roff[-1], coff[-1]], fn, cplx=cp)
+
+        return {"block": np_block, "array": np_array, "roll": np_roll, "zeros_like": np_zeros_like, "empty_like": np_zeros_like, "empty": np_empty,
                 "concatenate": np_concatenate, "real": np_real, "imag": np_imag, "any": np_any, "allclose": np_allclose}
 
     # allocation hook: the active domain decides what np.zeros / np.eye produce
